@@ -11,7 +11,7 @@ namespace tpl
 struct V { uint64_t h = 0; };
 using TV = ctpg::term_value<V>;
 
-struct ArgInfo { uint64_t h; uint32_t line, col; bool is_err; bool unexpected = false; };
+struct ArgInfo { uint64_t h; uint32_t line, col; bool is_err; bool unexpected = false; uint32_t sp_line = 0, sp_col = 0; };
 struct RuleCall { int slot; std::vector<ArgInfo> args; uint64_t value; bool had_ctx; const void* ctx_addr; bool ctx_const; bool ctx_lvalue = false; long ctx_seen = -1; };
 
 // caller contexts for C13
@@ -21,6 +21,11 @@ template<class C> long touch_ctx(C&, int) { return -1; }                      //
 inline long touch_ctx(Ctx& c, int slot) { long n = long(c.seen.size()); c.seen.push_back(slot); return c.magic == 0xC0FFEE ? n : -2; }
 inline long touch_ctx(MCtx& c, int slot) { long n = long(c.seen.size()); c.seen.push_back(slot); return c.magic == 0xC0FFEE ? n : -2; }
 inline long touch_ctx(const Ctx& c, int) { return c.magic == 0xC0FFEE ? long(c.seen.size()) : -2; }
+// context types of other shapes: a small trivially copyable struct (fits a register) and a raw pointer
+struct PodCtx { int count = 0; int last = -1; };
+inline long touch_ctx(PodCtx& c, int slot) { long n = c.count; ++c.count; c.last = slot; return n; }
+inline long touch_ctx(const PodCtx& c, int) { return c.count; }
+inline long touch_ctx(Ctx*& c, int slot) { long n = long(c->seen.size()); c->seen.push_back(slot); return c->magic == 0xC0FFEE ? n : -2; }
 struct TermCall { int term; const char* data; size_t size; };
 struct CallLog
 {
@@ -44,7 +49,20 @@ struct TermF
     }
 };
 
-inline ArgInfo arginfo(const TV& v) { return ArgInfo{v.get_value().h, v.get_line(), v.get_column(), false}; }
+// the same functor TYPE for every term, told apart by its state (typed terms written with one functor class and different constructor
+// arguments, e.g. typed_term(char_term('+'), as_op{op::add}) / typed_term(char_term('-'), as_op{op::sub}))
+struct TermFS
+{
+    int t = 0;
+    V operator()(std::string_view sv) const
+    {
+        if (g_log) { g_log->terms.push_back(TermCall{t, sv.data(), sv.size()}); }
+        if (sv.empty()) { if (g_log) g_log->empty_lexeme = true; throw empty_lexeme_error(); }
+        return V{ref::term_value_hash(t, std::string(sv))};
+    }
+};
+
+inline ArgInfo arginfo(const TV& v) { ArgInfo a{v.get_value().h, v.get_line(), v.get_column(), false}; a.sp_line = v.get_sp().line; a.sp_col = v.get_sp().column; return a; }   // both ways a functor can read the position
 inline ArgInfo arginfo(const ctpg::no_type&) { return ArgInfo{ref::ERROR_VALUE_HASH, 0, 0, true}; }
 // anything else reaching a rule functor (e.g. a context handed to a '>=' functor) is recorded, not a build error
 template<class X> ArgInfo arginfo(const X&) { ArgInfo a{0xBADBADULL, 0, 0, false}; a.unexpected = true; return a; }
@@ -243,12 +261,13 @@ auto make_t20(Limits lim)
 {
     using namespace ctpg;
     constexpr nterm<TV> n0("N0"), n1("N1"), n2("N2"), n3("N3"), n4("N4"), n5("N5"), park("PARK");
-    auto ta = typed_term(char_term('a'), TermF<0>{});
-    auto tb = typed_term(char_term('b'), TermF<1>{});
-    auto tc = typed_term(char_term('c'), TermF<2>{});
-    auto td = typed_term(char_term('d'), TermF<3>{});
-    auto te = typed_term(char_term('e'), TermF<4>{});
-    auto tf = typed_term(char_term('f'), TermF<5>{});
+    // T20's six terms have ONE C++ type (typed_term<char_term, TermFS>); T36's have six different types
+    auto ta = typed_term(char_term('a'), TermFS{0});
+    auto tb = typed_term(char_term('b'), TermFS{1});
+    auto tc = typed_term(char_term('c'), TermFS{2});
+    auto td = typed_term(char_term('d'), TermFS{3});
+    auto te = typed_term(char_term('e'), TermFS{4});
+    auto tf = typed_term(char_term('f'), TermFS{5});
     return parser(
         n0,
         terms(ta, tb, tc, td, te, tf),
